@@ -55,7 +55,7 @@ func placeBases(in *HistInput, mode string) bool {
 // checkResume: base run from the first file, labels and chain, then every
 // delivered transaction as a resume point.
 func checkResume(in HistInput) string {
-	if in.RejectAt > 0 {
+	if in.RejectAt > 0 || in.CutAt > 0 {
 		// the Streamer's own resume point: a rejected delivery, then a second
 		// Stream call on the same object (labels and contents of a fresh stream)
 		w, _, _ := checkGrouping(in)
@@ -198,6 +198,16 @@ func runC03(r *chk.Run) {
 					for k := 1; k <= len(seq); k++ {
 						in2 := in
 						in2.RejectAt = k
+						if !hr.add(in2) {
+							return
+						}
+					}
+				}
+				if len(seq) <= 2 && len(seq) > 0 && ci == 0 {
+					// the connection is lost in front of every packet of the dump in turn
+					for k := 2; k <= 14; k++ {
+						in2 := in
+						in2.CutAt = k + 1
 						if !hr.add(in2) {
 							return
 						}
